@@ -191,6 +191,45 @@ def guards(ctx, o, eff, name):
         return
     for label, R, needs_elem in REQ[name]:
         T.require(ctx, o, f, label, R, writes, eff, needs_elem)
+    if name in ('predecessors', 'successors'):
+        _constructor_path(ctx, o, eff, name)
+
+
+def _constructor_path(ctx, o, eff, name):
+    """the constructor is an owner of the link fields only for their initial empty values.  When the body of a dependency setter
+    reaches it another way (a private helper with switches, spliced in by the normaliser), the same rejections must hold there
+    for the constructor's own argument, before the first write of that block"""
+    prog = ctx.prog
+    mine = '_Task__' + name
+    other = '_Task__successors' if name == 'predecessors' else '_Task__predecessors'
+    f = prog.func('task.Task.__init__')
+    cfg = cfg_of(f)
+    s_ = f.self_name
+    ex = Expander(prog, f, ctx.typer, inline=False)
+    for st, tgt, val in facts.attr_stores(f, mine):
+        if not (isinstance(tgt.value, ast.Name) and tgt.value.id == s_):
+            continue
+        if (isinstance(val, (ast.List, ast.Tuple)) and not val.elts) or (isinstance(val, ast.Constant) and val.value is None) or \
+                match("list()", val) or match("[]", val):
+            continue
+        vx = ex.expand(val, cfg.node_of(st))
+        params = sorted({n.id for n in ast.walk(vx) if isinstance(n, ast.Name) and n.id in f.params and n.id != s_})
+        if len(params) != 1:
+            o.undecided(f, st, st, f"the constructor stores `{src(vx)[:60]}` into {unmangle(mine)}: not traceable to one constructor argument")
+            continue
+        writes = []
+        for w in eff.direct_writes(f):
+            if (w.field == mine and w.node is st) or (w.field == mine and w.kind == 'store' and any(x is w.node for x in ast.walk(st))) or \
+                    (w.field == other and w.kind != 'store' and w.root != 'self'):
+                cn = cfg.node_containing(w.node) or cfg.node_of(w.node)
+                if cn is not None:
+                    writes.append((cn, w.node, f"{w.kind} of {unmangle(w.field)}"))
+        if not writes:
+            writes = [(cfg.node_of(st), st, f"store of {unmangle(mine)}")]
+        with T.arg_role(f, params[0]):
+            for label, R, needs_elem in REQ[name]:
+                T.require(ctx, o, f, f"{label} - on the constructor path (Task(.., {params[0]}=..) writes the links without the public setter)",
+                          R, writes, eff, needs_elem)
 
 
 def _role_text(f, u, g):
@@ -613,13 +652,26 @@ def _walk_form(ctx, f, raw, pub):
                 if isinstance(arg, ast.Constant):
                     consts[prm] = arg.value
             cands.append((g, consts, c))
+    # generator METHODS of the task called as self.m(): the walked task is the method's own receiver, the recursion is v.m()
+    method_form = set()
+    for ci in ctx.cg.calls_in(f):
+        c = ci.node
+        if ci.kind == 'call' and isinstance(c, ast.Call) and isinstance(c.func, ast.Attribute) and isinstance(c.func.value, ast.Name) and \
+                c.func.value.id == f.self_name and not c.args:
+            for g in ci.targets:
+                if g is not None and g is not f and g.kind == 'method' and g.cls == f.cls and g.self_name:
+                    cands.append((g, {}, c))
+                    method_form.add(id(g))
     for g, consts, start_call in cands:
         if not g.params:
             continue
         p = g.params[0]
 
-        def is_rec(call, v=None):
+        def is_rec(call, v=None, g=g):
             fn = call.func
+            if id(g) in method_form:
+                return isinstance(fn, ast.Attribute) and unmangle(fn.attr) == unmangle(g.name) and isinstance(fn.value, ast.Name) and \
+                    (v is None or fn.value.id == v) and not call.args
             nm = fn.id if isinstance(fn, ast.Name) else (unmangle(fn.attr) if isinstance(fn, ast.Attribute) else None)
             if nm != unmangle(g.name) or not call.args:
                 return False
@@ -734,6 +786,34 @@ def closure(ctx, o):
             o.refute(g, g.node, f.qual, "all_parents does not walk the whole parent chain starting at the direct parent")
             done = True
     if not done:
+        # generator method:  def m(self): x = self.parent; if x is None ..: return; yield x; yield from x.m()   started as self.m()
+        for ci in ctx.cg.calls_in(f):
+            c = ci.node
+            if not (ci.kind == 'call' and isinstance(c, ast.Call) and isinstance(c.func, ast.Attribute) and isinstance(c.func.value, ast.Name)
+                    and c.func.value.id == s and not c.args):
+                continue
+            for g in ci.targets:
+                if g is None or g is f or g.kind != 'method' or g.cls != f.cls or not g.self_name or done:
+                    continue
+                gx = Expander(prog, g, ctx.typer, inline=False)
+                gs = g.self_name
+
+                def is_parent(e, gx=gx, gs=gs):
+                    x = gx.expand(e)
+                    return bool(match(f"{gs}._Task__parent", x) or match(f"{gs}.parent", x))
+                ylds = [n for n in walk_no_nested(g.node) if isinstance(n, ast.Yield) and n.value is not None and is_parent(n.value)]
+                recs = [n for n in walk_no_nested(g.node) if isinstance(n, ast.YieldFrom) and isinstance(n.value, ast.Call) and
+                        isinstance(n.value.func, ast.Attribute) and unmangle(n.value.func.attr) == unmangle(g.name) and
+                        not n.value.args and is_parent(n.value.func.value)]
+                any_rec = any(isinstance(n, ast.Call) and isinstance(n.func, ast.Attribute) and unmangle(n.func.attr) == unmangle(g.name)
+                              for n in ast.walk(g.node))
+                if ylds and recs and getattr(ylds[0], 'lineno', 0) <= getattr(recs[0], 'lineno', 0):
+                    o.site(g, g.node, "yield self.parent; yield from self.parent.<same>(), started at the task")
+                    done = True
+                elif ylds and not any_rec and not any(isinstance(n, (ast.While, ast.For)) for n in ast.walk(g.node)):
+                    o.refute(g, g.node, f.qual, "all_parents does not walk the whole parent chain starting at the direct parent")
+                    done = True
+    if not done:
         # iterative form:  cur = self.parent; while cur is not None [..]: acc.append(cur); cur = cur.parent
         fl = flow_of(f)
         for w in [n for n in walk_no_nested(f.node) if isinstance(n, ast.While)]:
@@ -753,7 +833,9 @@ def closure(ctx, o):
         if not done:
             loops = [n for n in ast.walk(f.node) if isinstance(n, (ast.While, ast.For, ast.FunctionDef, ast.ListComp, ast.GeneratorExp))
                      and n is not f.node]
-            calls_self = any(isinstance(n, ast.Attribute) and unmangle(n.attr) in ('__get_all_parents', 'all_parents') for n in ast.walk(f.node))
+            calls_self = any(isinstance(n, ast.Attribute) and unmangle(n.attr) in ('__get_all_parents', 'all_parents') for n in ast.walk(f.node)) \
+                or any(t is not None and t is not f and t.module is f.module and t.name.startswith('_') and t.name != '__init__'
+                       for ci in ctx.cg.calls_in(f) if ci.kind == 'call' for t in ci.targets)
             if not loops and not calls_self:
                 o.refute(f, f.node, f.qual, "all_parents does not walk the whole parent chain starting at the direct parent (no loop, no recursion)")
             else:
@@ -773,8 +855,16 @@ def closure(ctx, o):
                     o.refute(h, n, n, f"{unmangle(h.name)} keeps its result on the task (`{src(t)}`): the memoised closure is not invalidated when "
                                       f"the links of another task of the chain change, so the cycle / ancestor guards can work on a stale closure")
     u = prog.func('task._unique_tasks')
+    ux = Expander(prog, u, ctx.typer, inline=False)
 
-    def keyed(pred):
+    def keyed(pred0):
+        def pred(e):
+            if pred0(e):
+                return True
+            try:
+                return isinstance(e, ast.Name) and cfg_of(u).node_containing(e) is not None and pred0(ux.expand(e))
+            except Exception:
+                return False
         for n in ast.walk(u.node):
             if isinstance(n, ast.Compare) and len(n.ops) == 1 and isinstance(n.ops[0], (ast.In, ast.NotIn)) and pred(n.left):
                 return True
@@ -1233,15 +1323,16 @@ def facades(ctx, o):
     # move
     f = prog.func('task._ChildrenList.move')
     cfg = cfg_of(f)
-    rem = [c for c in facts.calls_named(f, 'remove') if match("self._list.remove($t)", c)]
-    ins = [c for c in facts.calls_named(f, 'insert') if match("self._list.insert($i, $t)", c)]
+    xc = {id(c): T.expand_call(prog, f, ctx.typer, c) for c in facts.calls_named(f, 'remove') + facts.calls_named(f, 'insert')}
+    rem = [c for c in facts.calls_named(f, 'remove') if match("self._list.remove($t)", xc[id(c)])]
+    ins = [c for c in facts.calls_named(f, 'insert') if match("self._list.insert($i, $t)", xc[id(c)])]
     if not rem:
         o.undecided(f, f.node, 'move', "move does not remove/insert on the shared list")
     for c in rem:
-        t = match("self._list.remove($t)", c)['t']
+        t = match("self._list.remove($t)", xc[id(c)])['t']
         rn = cfg.node_containing(c)
         # every path from the removal to the loop header / exit passes an insert of the same element; no raise in between
-        ins_ids = {cfg.node_containing(i).id for i in ins if same(match("self._list.insert($i, $t)", i)['t'], t)}
+        ins_ids = {cfg.node_containing(i).id for i in ins if same(match("self._list.insert($i, $t)", xc[id(i)])['t'], t)}
         seen, todo, leak, raised = set(), list(rn.succ), False, False
         fo = _for_of(f, c)
         stop = {cfg.node_of(fo).id} if fo is not None else set()
@@ -1376,6 +1467,11 @@ def move_anchor(ctx, o, eff):
     if not writes:
         o.undecided(f, f.node, 'move', "no list change found")
         return
+    from .c15 import move_anchor_rebound
+    for st_, nm in move_anchor_rebound(ctx, f):
+        o.refute(f, st_, st_, f"the anchor `{nm}` is re-bound inside the relocation loop (`{src(st_)[:50]}`): what was validated before the loop no "
+                              f"longer covers it - a task repeated in the selection is removed and then looked up as the anchor, index() fails "
+                              f"and the task is lost from the child list")
     for key, label, R, needs_elem in move_requirements(f):
         if key == 'task_in_list':
             continue        # a moved task that is not in the list fails in remove(), before anything of it was changed
